@@ -51,7 +51,9 @@ RULE = ('per function (49 incl. the rename/convert suffix-notation forms) x argu
         'fields x every argument value x every table with 1-2 rows of every length 0..w+1 x stage 1 in {list rows, '
         'Record rows via convert(where=never), tuple+Record rows via convert(where=first row), Record rows via '
         'selectusingcontext, namedtuple rows}: stage 2 (the function) on stage 1 must equal the same call on the '
-        'materialised tuple rows (or raise like it).  '
+        'materialised tuple rows (or raise like it); further kinds: list rows handed on by the pass-through stages '
+        'skip(0)+cache(), and sqlite3.Row rows from fromdb (rectangular tables with distinct names).  Since repair '
+        'ccf9930 the convert/selectusingcontext kinds deliver tuples; they are kept to pin the repair.  '
         'states = distinct (tables, arguments[, pass-1 kind, change | upstream row type]) points; transitions = petl evaluations; a case '
         'is non-trivial when it has >=1 data row and the expected output differs from the (first) input table or an '
         'input row is ragged.  Excluded because the documentation gives no answer (only the frame conditions - one '
@@ -1053,9 +1055,32 @@ def _always3(prv, cur, nxt):
     return True
 
 
+# On the current tree every transform stage delivers plain tuples; only the pass-through stages (skip, skipcomments,
+# data, wrap, cache, progress, prefix/suffixheader) hand on the source's own row objects, and fromdb hands on the
+# DB driver's row objects.  The two convert/selectusingcontext kinds delivered petl Records before the repair
+# ccf9930; they are kept to pin it (if Records come back, the differential reports it).
 ROWTYPES = ('list rows', 'Record rows via convert(where=never true)',
             'tuple+Record rows via convert(where=true for the first row only)',
-            'Record rows via selectusingcontext', 'namedtuple rows')
+            'Record rows via selectusingcontext', 'namedtuple rows',
+            'list rows handed on by the pass-through stages skip(0) and cache()')
+SQLITE_ROWS = 'sqlite3.Row rows via fromdb(connection with row_factory=sqlite3.Row)'
+
+
+def _sqlite_applicable(t):
+    """A DB table is rectangular and has distinct (case-insensitive) text column names."""
+    hdr = t[0]
+    return (len(hdr) > 0 and all(isinstance(h, str) and h for h in hdr)
+            and len(set(h.lower() for h in hdr)) == len(hdr) and all(len(r) == len(hdr) for r in t[1:]))
+
+
+def _sqlite_table(t):
+    import sqlite3
+    conn = sqlite3.connect(':memory:')
+    conn.row_factory = sqlite3.Row
+    names = [str(h) for h in t[0]]
+    conn.execute('create table t (%s)' % ', '.join('"%s"' % n for n in names))
+    conn.executemany('insert into t values (%s)' % ', '.join('?' * len(names)), [tuple(r) for r in t[1:]])
+    return etl.fromdb(conn, 'select * from t order by rowid')
 
 
 def wrap_rowtype(kind, t):
@@ -1070,6 +1095,10 @@ def wrap_rowtype(kind, t):
         return etl.selectusingcontext(t, _always3)
     if kind == 'namedtuple rows':
         return _NamedTupleRows(t)
+    if kind == 'list rows handed on by the pass-through stages skip(0) and cache()':
+        return etl.wrap(etl.skip([list(r) for r in t], 0)).cache()
+    if kind == SQLITE_ROWS:
+        return _sqlite_table(t)
     raise KeyError(kind)
 
 
@@ -1422,6 +1451,17 @@ def rowtype_tables(hdrs, n):
     return [tuple(x[0] for x in combo) for combo in itertools.product(*ts)]
 
 
+def rowtype_plan(hdrs, n):
+    """(tables, upstream row type) pairs; the sqlite kind only where a DB table can hold the input."""
+    out = []
+    for ts in rowtype_tables(hdrs, n):
+        for kind in ROWTYPES:
+            out.append((ts, kind))
+        if all(_sqlite_applicable(t) for t in ts):
+            out.append((ts, SQLITE_ROWS))
+    return out
+
+
 def rowtype_ns(hdrs):
     return [(n,) * len(hdrs) for n in ((1, 2) if len(hdrs) == 1 else (1,))]
 
@@ -1438,7 +1478,7 @@ def rowtype_items(tier):
                     ck = (tier, 'rowtype', _N, fn, form, hdrs, nn)
                     if ck not in _COUNT:
                         na = len(args(hdrs, nn)) if all(len(h) <= 2 for h in hdrs) else 0
-                        _COUNT[ck] = na * len(rowtype_tables(hdrs, nn[0])) * len(ROWTYPES) if na else 0
+                        _COUNT[ck] = na * len(rowtype_plan(hdrs, nn[0])) if na else 0
                     total = _COUNT[ck]
                     if not total:
                         continue
@@ -1453,10 +1493,10 @@ def rowtype_cases(item):
     fn, form = item['fn'], item['form']
     headers, tables, args, ns = SPACES[fn][form]
     hdrs = item['hdrs']
-    prod = itertools.product(args(hdrs, item['ns']), rowtype_tables(hdrs, item['ns'][0]), ROWTYPES)
+    prod = itertools.product(args(hdrs, item['ns']), rowtype_plan(hdrs, item['ns'][0]))
     if item['chunks'] > 1:
         prod = itertools.islice(prod, item['chunk'], None, item['chunks'])
-    for (a, kw), ts, kind in prod:
+    for (a, kw), (ts, kind) in prod:
         yield {'fn': fn, 'form': form, 'tables': ts, 'args': a, 'kwargs': kw, 'rowtype': kind}
 
 
@@ -1535,10 +1575,6 @@ def run_item(item, acc):
         acc.outcome(outcome)
         if status == 'viol':
             key = key0
-            if rowtype and _record_rows_on_ragged_table(None, case, None):
-                # one root cause (a petl Record handed on as a row: no IndexError on short rows, no slicing),
-                # whatever the downstream function: one group per failure signature, not per function
-                key = 'any function fed Record rows (by convert(where=) / selectusingcontext) with a short or long row'
             acc.violation('%s | %s' % (key, sig), case, exp, obs,
                           '%s(%s): %s' % (fn, form, msg))
     acc.evals += n
@@ -1575,17 +1611,7 @@ def _is_allfamily_dup(group, case, params):
     return len(set(map(str, hdr))) < len(hdr)
 
 
-def _record_rows_on_ragged_table(group, case, params):
-    """known-finding classifier: the upstream stage hands petl Record objects on as rows AND an input table has a
-    row shorter or longer than its header (a Record answers `missing` instead of raising IndexError and rejects
-    slices).  Rectangular inputs never match."""
-    if 'Record' not in (case.get('rowtype') or ''):
-        return False
-    return any(len(r) != len(t[0]) for t in case['tables'] for r in t[1:])
-
-
-CLASSIFIERS = {'convertall_family_duplicate_field_names': _is_allfamily_dup,
-               'record_rows_on_ragged_table': _record_rows_on_ragged_table}
+CLASSIFIERS = {'convertall_family_duplicate_field_names': _is_allfamily_dup}
 
 
 def vacuity(cov, tier):
